@@ -214,6 +214,11 @@ pub fn generate(thorough: bool, seed: u64, part: (usize, usize), em: &mut Emitte
                     let line = format!("blitdseq 8 64 16 {} {}", hex(d), items.join(" "));
                     let toks: Vec<&str> = line.split(' ').collect(); run_case(&toks, em);
                 }
+                // rectangles that need more rows / columns than the decoded image has (refused, nothing painted beyond the image)
+                for &(bw, bh) in &shapes { for extra in 1..=bh { for wider in 0..2usize {
+                    let line = format!("blitdseq 8 64 16 {} 0.0.{}.{}.{}.{} 0.0.{}.{}.{}.{}", hex(d), bw - 1 + wider, bh - 1 + extra, bw, bh, bw - 1, bh - 1, bw, bh);
+                    let toks: Vec<&str> = line.split(' ').collect(); run_case(&toks, em);
+                } } }
                 for (a, b) in &[(0usize, 1usize), (1, 0), (2, 3), (0, 0), (3, 1)] {
                     let f = |i: usize| { let (bw, bh) = shapes[i]; format!("0.0.{}.{}.{}.{}", bw - 1, bh - 1, bw, bh) };
                     let line = format!("blitdseq 8 64 16 {} {} {}", hex(d), f(*a), f(*b));
